@@ -333,7 +333,8 @@ def run(ctx):
                     sc.remove_obstacle(pool[keys[0]] if op == "remove" else [pool[k] for k in keys])
                     for k in keys:
                         contained.discard(k)
-                        needs_complete.discard(k)
+                        # (needs_complete stays: the obstacle OBJECT keeps the records of its old horizon until a complete
+                        # assignment, also across a removal and a later re-addition)
                         removed_before.add(k)
                         center_only.discard(k)
                         assigned = {a for a in assigned if a[0] != k} | {a for a in assigned if a[0] == k}
